@@ -181,7 +181,7 @@ def parse_cbmc(out):
 
 
 def limit_prefix():
-    return 'ulimit -v %d; ' % MEM_KB
+    return 'ulimit -s unlimited 2>/dev/null; ulimit -v %d; ' % MEM_KB
 
 
 def sh(cmd, timeout):
